@@ -72,11 +72,11 @@ type machA struct {
 	ops []string
 	op  string // operation being executed (part of signatures)
 
-	known map[ctypes.OutPoint]common.Fixed64          // value of every output the harness ever saw
-	all   map[common.Uint256]interfaces.Transaction   // every transaction ever built / seen
-	built []interfaces.Transaction                    // submission candidates in creation order
-	tree  map[common.Uint256]*types.Block             // every block built, by hash
-	utxo  node.UTXOSet                                // replay of the node's active chain
+	known map[ctypes.OutPoint]common.Fixed64        // value of every output the harness ever saw
+	all   map[common.Uint256]interfaces.Transaction // every transaction ever built / seen
+	built []interfaces.Transaction                  // submission candidates in creation order
+	tree  map[common.Uint256]*types.Block           // every block built, by hash
+	utxo  node.UTXOSet                              // replay of the node's active chain
 	limit uint64
 
 	dead bool
